@@ -116,6 +116,20 @@ def fixed_close_scenarios():
         out.append(number({"record_interruptions": False, "devices": {"d1": {"kind": "det"}, "sa": {"kind": "sig", "modes": {"clear_sub": ["raise"]}}, "sb": {"kind": "sig"}},
                            "script": {}, "decisions": [], "max_arrivals": 200, "plan": seq(*body), "ending": ending,
                            "fault": {"kind": "clear_sub", "run_key": "a"}, "tag": "fault-probe:close"}))
+    # an explicit unmonitor whose clear_sub fails once (the plan swallows the error or dies from it)
+    for swallow in (True, False):
+        for ending in ("close", "raise", "leave-open"):
+            um = M("unmonitor", "sa", run="a")
+            body = [M("open_run", run="a"), M("monitor", "sa", run="a", name="sa_monitor"), M("checkpoint")] + _point("a")
+            body.append({"k": "try", "body": um, "handler": M("null"), "fin": None} if swallow else um)
+            body += _point("a")
+            if ending == "close":
+                body.append(M("close_run", run="a"))
+            elif ending == "raise":
+                body.append({"k": "raise", "tag": "boom"})
+            out.append(number({"record_interruptions": False, "devices": {"d1": {"kind": "det"}, "sa": {"kind": "sig", "modes": {"clear_sub": ["raise"]}}},
+                               "script": {}, "decisions": [], "max_arrivals": 200, "plan": seq(*body), "ending": ending,
+                               "fault": {"kind": "clear_sub", "run_key": "a", "at": "unmonitor", "swallowed": swallow}, "tag": "fault-probe:close"}))
     return out
 
 
@@ -187,6 +201,40 @@ def pause_hook_scenarios(rng, n):
               "tag": "fault-probe:pause-hook", "fault": {"kind": "slow-async-pause-hook"}, "ending": "close"}
         out.append(number(sc))
     return out
+
+
+def list_plan_suspension_scenarios(rng, n):
+    """a suspension whose pre / post plans are plain LISTS of messages with non-None responses (set, wait, read ...);
+    the helper must run them like any plan and the user's plan must keep receiving its own responses"""
+    out = []
+    for _ in range(n):
+        body = [M("open_run"), M("checkpoint"), M("set", "m1", 1, group="g"), M("wait", None, group="g"), M("sleep", None, 1), M("null")] + _point(None) + [M("close_run")]
+        base = {"record_interruptions": False, "devices": {"d1": {"kind": "det"}, "m1": {"kind": "motor"}, "m2": {"kind": "motor"}}, "plan": seq(*body),
+                "script": {}, "decisions": [], "max_arrivals": 200}
+        pre = seq(M("set", "m2", 5, group="pp"), M("wait", None, group="pp"))
+        post = seq(M("set", "m2", 0, group="qq"), M("wait", None, group="qq"), M("null"))
+        which = rng.choice(["pre", "post", "both"])
+        at = rng.randrange(1, 7)
+        act = {"a": "suspend", "fut": 0, "pre": pre if which in ("pre", "both") else None, "post": post if which in ("post", "both") else None, "just": None, "form": "list"}
+        sc = dict(base, script={str(at): [act]}, tag="fault-probe:list-plan-suspension", fault={"kind": "list-pre-post-plan", "which": which}, ending="close")
+        out.append(number(sc))
+    return out
+
+
+def plan_undisturbed(sc, o):
+    """C13: the helper plans of a suspension do not disturb the user's plan: the call ends normally, nothing is thrown into
+    the plan, and every run is closed 'success'"""
+    bad = []
+    thrown = [y for y in o["yields"] if y[1] == "throw"]
+    if thrown:
+        bad.append((f"exception-thrown-into-plan:{thrown[0][2]}", f"{thrown[0][2]} was thrown into the user's plan at msg #{thrown[0][0]} during a suspension with {sc['fault']}"))
+    for r in o["returns"]:
+        if r[1] not in ("return",):
+            bad.append((f"call-ended-{r[1]}", f"{r[0]} ended with {r[1]} ({o['return_texts']}) although only a suspension with list-valued pre/post plans happened"))
+    for d in o["docs"]:
+        if d["k"] == "stop" and d["exit"] != "success":
+            bad.append(("run-not-success", f"{d['run']} closed with {d['exit']!r} ({d['reason_text']!r})"))
+    return bad
 
 
 def all_scenarios(rng, n):
@@ -277,7 +325,7 @@ def callback_exception_policy(sc, o):
     return bad
 
 
-FAMILIES = {"pause-hook": pause_hook_scenarios, "close": close_fault_scenarios, "teardown-request": teardown_request_scenarios, "leftover-stage": leftover_stage_scenarios}
+FAMILIES = {"list-plan-suspension": list_plan_suspension_scenarios, "pause-hook": pause_hook_scenarios, "close": close_fault_scenarios, "teardown-request": teardown_request_scenarios, "leftover-stage": leftover_stage_scenarios}
 
 
 def run_probes(ctx, res, judges, families, quick, thorough):
